@@ -54,9 +54,9 @@ KINDS = {"s": "writestr member (symbolic size)", "f": "write() of a regular file
          "l": "write() of a symlink"}
 
 
-def run_session(e, st, pattern, sizes, names, header_mode="raw"):
+def run_session(e, st, pattern, sizes, names, header_mode="raw", mode="w"):
     """one create session through the real public write methods; returns (szf-less) observations"""
-    z, fp = S.new_archive(e, header_mode=header_mode)
+    z, fp = S.new_archive(e, mode=mode, header_mode=header_mode)
     for i, k in enumerate(pattern):
         if k == "s":
             e.method(z, "writestr_stub" if False else "_writef", S.StubSource(sizes[i], "m%d" % i), names[i])
